@@ -459,7 +459,9 @@ def c4_handover(fb, rep, reach):
             if e.get('k') == 'call' and cname(e).split('::')[-1] == 'setWhiteContempt' and 'TT' in cname(e) or \
                     (e.get('k') == 'call' and cname(e) in ('ClusterTT::setWhiteContempt', 'TranspositionTable::setWhiteContempt')):
                 g = G.guards_of(sw, set(sw.blocks), b)
-                rep.ob(clause, 'K4 guard', 'only thread 0 writes the table\'s contempt hash', any('threadNo' in x and '== 0' in x and not x.startswith('!') for x in g),
+                tno = lambda v: (lambda t: ('v', v) if t.get('k') == 'mem' and ap(t) == 'this.threadNo' else None)
+                only0 = G.excluded_under(sw, b, tno(1)) and G.excluded_under(sw, b, tno(7)) and not G.excluded_under(sw, b, tno(0))
+                rep.ob(clause, 'K4 guard', 'only thread 0 writes the table\'s contempt hash', only0,
                        R.site(sw, e), 'guards %s' % g, sw.sname)
     wd = fb.find1('WorkerThread::doSearch')
     if rep.need(clause, wd, 'WorkerThread::doSearch'):
